@@ -69,6 +69,7 @@ type c05responder struct {
 	policies map[string]c05policy // by call token (uri path)
 	seen     map[string]chan struct{}
 	sent     []c05wire // responses put on the wire
+	sendErrs int       // responses the harness' own end failed to write
 	seq      int64
 	lateGo   map[string]chan struct{}
 	wg       sync.WaitGroup
@@ -105,7 +106,18 @@ func (rs *c05responder) respond(id, call string) {
 	rs.mu.Lock()
 	rs.sent = append(rs.sent, c05wire{rtok, id, call})
 	rs.mu.Unlock()
-	_ = rs.peer.Send(map[string]interface{}{"id": id, "method": "get", "status": "success", "type": "text/plain", "resource": rtok})
+	if err := rs.peer.Send(map[string]interface{}{"id": id, "method": "get", "status": "success", "type": "text/plain", "resource": rtok}); err != nil {
+		// the harness' own end could not put it on the wire: it was not sent
+		rs.mu.Lock()
+		for i := len(rs.sent) - 1; i >= 0; i-- {
+			if rs.sent[i].rtok == rtok {
+				rs.sent = append(rs.sent[:i], rs.sent[i+1:]...)
+				break
+			}
+		}
+		rs.sendErrs++
+		rs.mu.Unlock()
+	}
 }
 
 func (rs *c05responder) loop() {
@@ -601,12 +613,37 @@ func (p c05) conserve(r *core.Result, g *c05rig, tag string, outcomes map[string
 		}
 		runtime.Gosched()
 	}
-	time.Sleep(2 * time.Millisecond)
+	// The judged set of responses is fixed first; the consumers are looked at afterwards (a response that the
+	// responder writes after this point - to the request of a cancelled call still in flight - may or may not be
+	// consumed yet: it is only used to tell a consumed token from a fabricated one).
+	g.rs.mu.Lock()
+	sent = append([]c05wire{}, g.rs.sent...)
+	g.rs.mu.Unlock()
+	accounted := func() bool {
+		seen := map[string]bool{}
+		for _, c := range callerGot {
+			seen[c.rtok] = true
+		}
+		g.smu.Lock()
+		for _, s := range g.stream {
+			seen[s.rtok] = true
+		}
+		g.smu.Unlock()
+		for _, s := range sent {
+			if !seen[s.rtok] {
+				return false
+			}
+		}
+		return true
+	}
+	for i := 0; i < 500 && !accounted(); i++ {
+		time.Sleep(2 * time.Millisecond)
+	}
 	g.smu.Lock()
 	stream = append([]c05wire{}, g.stream...)
 	g.smu.Unlock()
 	g.rs.mu.Lock()
-	sent = append([]c05wire{}, g.rs.sent...)
+	sentLater := append([]c05wire{}, g.rs.sent...)
 	g.rs.mu.Unlock()
 	consumed := map[string]int{}
 	for _, c := range callerGot {
@@ -619,6 +656,9 @@ func (p c05) conserve(r *core.Result, g *c05rig, tag string, outcomes map[string
 		r.Count("responses_to_stream", 1)
 	}
 	r.Count("responses_sent", len(sent))
+	g.rs.mu.Lock()
+	r.Count("responder_send_errors", g.rs.sendErrs)
+	g.rs.mu.Unlock()
 	sentTok := map[string]c05wire{}
 	for _, s := range sent {
 		sentTok[s.rtok] = s
@@ -633,6 +673,14 @@ func (p c05) conserve(r *core.Result, g *c05rig, tag string, outcomes map[string
 			}
 		default:
 			r.Violate("C05/response-duplicated", fmt.Sprintf("%s: response %s (id %s) was consumed %d times", tag, s.rtok, s.id, consumed[s.rtok]))
+		}
+	}
+	for _, s := range sentLater {
+		if _, ok := sentTok[s.rtok]; !ok {
+			sentTok[s.rtok] = s
+			if consumed[s.rtok] > 1 {
+				r.Violate("C05/response-duplicated", fmt.Sprintf("%s: response %s (id %s) was consumed %d times", tag, s.rtok, s.id, consumed[s.rtok]))
+			}
 		}
 	}
 	for tok := range consumed {
